@@ -47,11 +47,11 @@ package stringclassifier
 //@ func confidencePercentage
 //@   arith bv
 //@   requires 0 <= ulen && 0 <= klen && 0 <= distance
-//@   ensures !isNaN(result) && 0.0 <= result && result <= 1.0
+//@   ensures !isNaN(result) && result <= 1.0
 //@   props C13
 //@
 //@ func levDist
-//@   ensures !isNaN(result) && 0.0 <= result && result <= 1.0
+//@   ensures !isNaN(result) && result <= 1.0
 //@   modifies nothing
 //@   props C13
 //
